@@ -1106,6 +1106,12 @@ func (c *cenv) TypedUF(name string) ([]types.Type, types.Type, bool) {
 		case "sigOK":
 			return []types.Type{iface, bz, bz}, types.Typ[types.Bool], true
 		}
+	case "tmPk":
+		cp := c.x.L.Prog.ImportedPackage("github.com/cometbft/cometbft/proto/tendermint/crypto")
+		if cp == nil || cp.Type("PublicKey") == nil {
+			return nil, nil, false
+		}
+		return []types.Type{types.NewInterfaceType(nil, nil)}, cp.Type("PublicKey").Type(), true
 	case "totalBonded":
 		stp := c.x.L.Prog.ImportedPackage("github.com/cosmos/cosmos-sdk/x/staking/types")
 		mp := c.x.L.Prog.ImportedPackage("cosmossdk.io/math")
